@@ -142,7 +142,16 @@ type viol struct{ sig, detail string }
 
 // checkHeight compares everything readable through root_h with the storage
 // recorded live at h.
-func checkHeight(run *ev.Run, bc *core.Blockchain, h uint32, obs *vchain.Observation, rec *heightRec, everDeleted map[string]bool, r *rng.R, tier string) *viol {
+func checkHeight(run *ev.Run, bc *core.Blockchain, h uint32, obs *vchain.Observation, rec *heightRec, everDeleted map[string]bool, r *rng.R, tier string) (res *viol) {
+	defer func() {
+		if x := recover(); x != nil {
+			msg := fmt.Sprint(x)
+			if i := strings.Index(msg, ":"); i > 0 {
+				msg = msg[:i]
+			}
+			res = &viol{"reading-retained-root-panicked:" + msg, fmt.Sprintf("height %d: %v", h, x)}
+		}
+	}()
 	sm := bc.GetStateModule()
 	sr, err := bc.GetStateRoot(h)
 	if err != nil {
@@ -437,9 +446,9 @@ func TestCheck(t *testing.T) {
 		pname := "all-forks"
 		if staged {
 			pname = "staged-forks"
-			proto = func(c *config.Blockchain) { vchain.StagedForks(c) }
+			proto = func(c *config.Blockchain) { vchain.StagedForks(c); c.MaxTraceableBlocks = 12 }
 		} else {
-			proto = func(c *config.Blockchain) { vchain.AllForks(c) }
+			proto = func(c *config.Blockchain) { vchain.AllForks(c); c.MaxTraceableBlocks = 12 }
 		}
 		h := vchain.BuildHistory(t, vchain.HistoryCfg{Idx: 600 + hi, Blocks: nb, Keep: true, Weights: &w, Proto: proto, PName: pname,
 			OnBlock: func(p *vchain.Producer, b *block.Block) {
@@ -539,6 +548,47 @@ func TestCheck(t *testing.T) {
 		}
 		wg.Wait()
 		rep.Close()
+		// second node: a pruning one (RemoveUntraceableBlocks, GC really running);
+		// the same reads are made through the roots it still retains, while it
+		// keeps syncing (retained = the last MaxTraceableBlocks heights)
+		if run.Want(fmt.Sprintf("h%d/pruning", hi)) {
+			gcfg := func(c *config.Blockchain) {
+				h.Proto(c)
+				c.RemoveUntraceableBlocks = true
+				c.GarbageCollectionPeriod = 2
+			}
+			grep, err := vchain.OpenReplica(t, vchain.ReplicaCfg{Name: "c03gc", Cfg: gcfg, Backend: backend})
+			if err != nil {
+				t.Fatal(err)
+			}
+			gr := rng.New(uint64(hi) + 8000)
+			for i := range h.P.Raw {
+				if err := grep.AddRaw(h.P.Raw[i]); err != nil {
+					run.Violation("pruning-replica-rejected-block", fmt.Sprintf("h%d/pruning", hi), err.Error(), nil)
+					break
+				}
+				if gr.Intn(2) == 0 {
+					_ = grep.Flush()
+				}
+				tip := i + 1
+				if tip%6 != 0 && tip != len(h.P.Raw) {
+					continue
+				}
+				_ = grep.Flush()
+				mtb := int(grep.BC.GetMaxTraceableBlocks())
+				for hh := tip; hh > tip-mtb+2 && hh >= 1; hh -= 1 + gr.Intn(3) {
+					id := fmt.Sprintf("h%d/pruning/tip%d/height%d", hi, tip, hh)
+					v := checkHeight(run, grep.BC, uint32(hh), h.P.Obs[hh], nil, everDeleted, gr, "quick")
+					run.Case(id, true)
+					run.Obs("pruning_node_heights_checked", 1)
+					if v != nil {
+						run.Violation("pruning-node:"+v.sig, id, v.detail, map[string]any{"history": 600 + hi, "tip": tip, "height": hh, "backend": backend})
+						break
+					}
+				}
+			}
+			grep.Close()
+		}
 		h.P.Close()
 	}
 }
